@@ -120,7 +120,7 @@ IMaps == {S!GIMap(k, nm, "string", FALSE, KeySeq(k), [i \in 1..Len(KeySeq(k)) |-
          \cup {S!GIMap("uint16", nm, "int", isnil, <<>>, <<>>) : nm \in BOOLEAN, isnil \in BOOLEAN}
 (* slices and string-keyed maps whose elements have a named numeric type; a struct with a field of every named integer type *)
 NamedSeq(k) == IF k \in S!IntKinds THEN [i \in 1..Len(KeySeq(k)) |-> S!GNamed(S!GInt(k, KeySeq(k)[i]))]
-               ELSE <<S!GNamed(S!GFlt(k, Canon(FALSE, <<3>>, -1))), S!GNamed(S!GFlt(k, S!NZero)), S!GNamed(S!GFlt(k, IF k = "float32" THEN S!MaxF32 ELSE P2(64)))>>
+               ELSE <<S!GNamed(S!GFlt(k, Canon(FALSE, <<3>>, -1))), S!GNamed(S!GFlt(k, S!NZero)), S!GNamed(S!GFlt(k, IF k = "float32" THEN P2(24) ELSE P2(64)))>>     \* float32 elements: values whose shortest float32 text (encoding/json) is exact
 NamedSlices == {S!GSlice("named:" \o k, FALSE, NamedSeq(k)) : k \in S!NumKinds \ {"uint8"}}     \* encoding/json prints byte slices as base64: not generated
                \cup {S!GMap("named:" \o k, FALSE, <<K_a, K_b>>, <<NamedSeq(k)[1], NamedSeq(k)[Len(NamedSeq(k))]>>) : k \in S!NumKinds}
                \cup {S!GSlice("named:string", FALSE, <<S!GNamed(S!GStr(U_smile))>>), S!GSlice("named:bool", FALSE, <<S!GNamed(S!GBool(TRUE))>>)}
